@@ -125,7 +125,11 @@ def check_construct(run, db):
         news = [(e, t) for e in f.events() for t in [top_term(e)] if t is not None and t.get('k') == 'new']
         if 'integral_constant<bool, true>' in tag:
             n += 1
-            thr = [t for e, t in flow.call_events(f) if sym.may_throw(t)] + [t for e, t in news if sym.may_throw(t)]
+            # a helper that is not declared noexcept but whose body cannot throw for this instantiation (an extracted loop) does not throw
+            from rules import c03
+            memo = {}
+            thr = [t for e, t in flow.call_events(f) if sym.may_throw(t) and not (t.get('key') and c03.effectively_nothrow(db, t['key'], memo))] \
+                + [t for e, t in news if sym.may_throw(t)]
             if thr:
                 run.violation('R-GUARD-DISPATCH', inst, f.loc, 'the unguarded construction loop is instantiated with a constructor that may throw: `%s`' % tstr(thr[0])[:100],
                               site={'function': 'detail::construct(true_type)', 'role': 'noexcept fast path'})
@@ -133,6 +137,11 @@ def check_construct(run, db):
                 run.ok('R-GUARD-DISPATCH', inst, f.loc, 'unguarded loop only with noexcept construction')
             continue
         n += 1
+        if not news:
+            # the construction loop lives in another function (a helper that advances the caller's cursor through a reference): the
+            # relation between cursor and constructed elements is not decidable here - undecided, not a violation
+            run.broke('%s contains no placement new: the element construction was moved into a helper this rule does not follow' % f.display[:120])
+            continue
         site = {'function': 'detail::construct(false_type)', 'role': 'rollback of the constructed prefix'}
         S = fwd.summarize(f, exceptional=True, db=db, inline_pred=lambda a, c, t: False)
         problems = []
